@@ -353,13 +353,17 @@ impl FormatString {
 }
 
 fn get_starting_point(file_info: &WalkEntry) -> &Path {
-    file_info
-        .path()
-        .ancestors()
-        .nth(file_info.depth())
-        // safe to unwrap: the file's depth should never be longer than its path
-        // (...right?).
-        .unwrap()
+    // The starting point exactly as given ("dir/", "dir/." ...), when the walk
+    // recorded it; Path::ancestors() would normalise such spellings away.
+    file_info.starting_point().unwrap_or_else(|| {
+        file_info
+            .path()
+            .ancestors()
+            .nth(file_info.depth())
+            // safe to unwrap: the file's depth should never be longer than its path
+            // (...right?).
+            .unwrap()
+    })
 }
 
 fn format_non_link_file_type(file_type: FileType) -> char {
@@ -484,19 +488,26 @@ fn format_directive<'entry>(
 
         FormatDirective::ModificationTime(tf) => tf.apply(meta()?.modified()?)?,
 
+        // %p is the path exactly as -print prints it.
         FormatDirective::Path {
-            strip_starting_point,
-        } => file_info
-            .path()
-            .strip_prefix(if *strip_starting_point {
-                get_starting_point(file_info)
-            } else {
-                Path::new("")
-            })
-            // safe to unwrap: the prefix is derived *from* the path to begin
-            // with, so it cannot be invalid.
-            .unwrap()
-            .to_string_lossy(),
+            strip_starting_point: false,
+        } => file_info.path().to_string_lossy(),
+
+        FormatDirective::Path {
+            strip_starting_point: true,
+        } => {
+            let path = file_info.path().to_string_lossy();
+            let starting_point = get_starting_point(file_info).to_string_lossy();
+            // The path is the starting point as given plus the names below it.
+            match path.strip_prefix(&*starting_point) {
+                Some(below) => below.strip_prefix('/').unwrap_or(below).to_owned().into(),
+                None => file_info
+                    .path()
+                    .strip_prefix(get_starting_point(file_info))
+                    .unwrap_or_else(|_| file_info.path())
+                    .to_string_lossy(),
+            }
+        }
 
         FormatDirective::Permissions(PermissionsFormat::Symbolic) => {
             uucore::fs::display_permissions(meta()?, true).into()
